@@ -138,6 +138,8 @@ def digest(tab):
     import hashlib
 
     out = {c: hashlib.sha1(c16._col_bytes(tab[c])).hexdigest() for c in tab.colnames}
+    out["(column order)"] = list(tab.colnames)
+    out["(header keyword order)"] = [k for k in tab.meta if k != "simTime"]
     for k in tab.meta:
         if k != "simTime" and not str(k).startswith("HIERARCH"):
             out["meta:" + k] = repr(meta_val(tab, k))
@@ -212,8 +214,20 @@ def body_one_field(case):
     q1, q2 = ctx.Queue(), ctx.Queue()
     p1 = ctx.Process(target=_child_sequence, args=([first, second], q1))
     p2 = ctx.Process(target=_child_sequence, args=([second], q2))
-    p1.start()
-    p2.start()
+    # (the two interpreters also get different string-hash seeds: nothing in a results table may depend on set / dict order)
+    import os as _os
+
+    saved_hs = _os.environ.get("PYTHONHASHSEED")
+    try:
+        _os.environ["PYTHONHASHSEED"] = str(1 + case["field"])
+        p1.start()
+        _os.environ["PYTHONHASHSEED"] = str(1000 + case["field"])
+        p2.start()
+    finally:
+        if saved_hs is None:
+            _os.environ.pop("PYTHONHASHSEED", None)
+        else:
+            _os.environ["PYTHONHASHSEED"] = saved_hs
     try:
         seq = q1.get(timeout=1800)
         alone = q2.get(timeout=1800)
